@@ -34,7 +34,7 @@ Print Assumptions C05_msg_frame_msg.
 
 Theorem C05_roundtrip :
   forall m nl, specific m -> wf_msg m -> wire_trip nl m = Some m.
-Proof. exact (wire_trip_roundtrip decode_encode_roundtrip). Qed.
+Proof. exact (wire_trip_roundtrip C01_roundtrip). Qed.
 Print Assumptions C05_roundtrip.
 
 Theorem C05_injective :
@@ -43,5 +43,5 @@ Theorem C05_injective :
     (encode (frame_of_msg m1) = encode (frame_of_msg m2)
      \/ encode_nl (frame_of_msg m1) = encode_nl (frame_of_msg m2)) ->
     m1 = m2.
-Proof. exact (wire_injective decode_encode_roundtrip). Qed.
+Proof. exact (wire_injective C01_roundtrip). Qed.
 Print Assumptions C05_injective.
